@@ -776,5 +776,68 @@ Proof.
 Qed.
 End TieAll.
 
+(* ---------------------------------------------------------------- the program text the theorems of this file are about *)
+(* The same verbatim translator output as in Proofs/LoopIRRlevinson.v, kept here too so that this file is the proof file the check compares the
+   regenerated text with (tools/props/_loopir.py, THEOREMS['rlevinson']); inside a module: the short name [prog_rlevinson_gen0] keeps
+   denoting the definition of Proofs/LoopIRRlevinson.v, and the two are equal by reflexivity. *)
+Module Gen.
+(* BEGIN GENERATED rlevinson (verbatim output of tools/props/_loopir.py for spectrum.levinson.rlevinson) *)
+(* rlevinson: slots 0=a 1=efinal 2=realdata 3=p 4=U 5=e 6=k 7=levdown@ret0#7 8=levdown@ret1#8 9=e0 10=kr 11=R 12=R0 13=r *)
+Definition prog_rlevinson_gen0 : program := mkProgram "rlevinson" 2 [None; None] 14
+(SSeq (SAssign 0 (ECopy (EVar 0)))
+(SSeq (SAssign 2 (EIsRealObj (EVar 0)))
+(SSeq (SAssert (ECmp CEq (EIndex (EVar 0) (EInt 0)) (EInt 1)))
+(SSeq (SAssign 3 (ELen (EVar 0)))
+(SSeq (SIf (ECmp CLt (EVar 3) (EInt 2))
+(SRaise ValueError)
+(SSkip))
+(SSeq (SIf (EIsBool true (EVar 2))
+(SAssign 4 (EZeros2 (EVar 3) (EVar 3) true))
+(SAssign 4 (EZeros2 (EVar 3) (EVar 3) false)))
+(SSeq (SStoreCol 4 (EBin BSub (EVar 3) (EInt 1)) (EConj (ESlice (EVar 0) (Some (ENeg (EInt 1))) None (Some (ENeg (EInt 1))))))
+(SSeq (SAssign 3 (EBin BSub (EVar 3) (EInt 1)))
+(SSeq (SAssign 5 (EZeros (EVar 3) true))
+(SSeq (SStore 5 (ENeg (EInt 1)) (EVar 1))
+(SSeq (SFor 6 (EBin BSub (EVar 3) (EInt 1)) (EInt 0) (ENeg (EInt 1))
+(SSeq (SSeq (SCall [7%nat; 8%nat] 2 [None; (Some ENone)] 5
+(SSeq (SIf (ECmp CNe (EIndex (EVar 0) (EInt 0)) (EInt 1))
+(SRaise ValueError)
+(SSkip))
+(SSeq (SAssign 0 (ESlice (EVar 0) (Some (EInt 1)) None None))
+(SSeq (SAssign 2 (EIndex (EVar 0) (ENeg (EInt 1))))
+(SSeq (SIf (ECmp CEq (EVar 2) (ELit 1 0))
+(SRaise ValueError)
+(SSkip))
+(SSeq (SAssign 3 (EBin BDiv (EBin BSub (ESlice (EVar 0) (Some (EInt 0)) (Some (ENeg (EInt 1))) None) (EBin BMul (EVar 2) (EConj (ESlice (EVar 0) (Some (ENeg (EInt 2))) None (Some (ENeg (EInt 1))))))) (EBin BSub (ELit 1 0) (ENrm2 (EVar 2)))))
+(SSeq (SAssign 4 ENone)
+(SSeq (SIf (ENot (EIsNone (EVar 1)))
+(SAssign 4 (EBin BDiv (EVar 1) (EBin BSub (ELit 1 0) (EDot (EConj (EVar 2)) (EVar 2)))))
+(SSkip))
+(SSeq (SAssign 3 (EInsert (EVar 3) (EInt 0) (EInt 1)))
+(SReturn [(EVar 3); (EVar 4)])))))))))
+[(Some (EVar 0)); (Some (EIndex (EVar 5) (EVar 6)))])
+(SSeq (SAssign 0 (EVar 7))
+(SStore 5 (EBin BSub (EVar 6) (EInt 1)) (EVar 8))))
+(SStoreCol 4 (EVar 6) (EConcat (EConj (ESlice (EVar 0) (Some (ENeg (EInt 1))) None (Some (ENeg (EInt 1))))) (EZeros (EMax (EInt 0) (EBin BSub (EVar 3) (EVar 6))) true)))))
+(SSeq (SAssign 9 (EBin BDiv (EIndex (EVar 5) (EInt 0)) (EBin BSub (ELit 1 0) (ENrm2 (EIndex (EVar 0) (EInt 1))))))
+(SSeq (SStore2 4 (EInt 0) (EInt 0) (EInt 1))
+(SSeq (SAssign 10 (EConj (ERowSlice (EVar 4) (EInt 0) (Some (EInt 1)) None None)))
+(SSeq (SAssign 10 (EVar 10))
+(SSeq (SAssign 11 (EZeros (EInt 1) false))
+(SSeq (SAssign 6 (EInt 1))
+(SSeq (SAssign 12 (EVar 9))
+(SSeq (SStore 11 (EInt 0) (EBin BMul (ENeg (EConj (EIndex2 (EVar 4) (EInt 0) (EInt 1)))) (EVar 12)))
+(SSeq (SFor 6 (EInt 1) (EVar 3) (EInt 1)
+(SSeq (SAssign 13 (EBin BSub (ENeg (ESum (EBin BMul (EConj (EColSlice (EVar 4) (Some (EBin BSub (EVar 6) (EInt 1))) None (Some (ENeg (EInt 1))) (EVar 6))) (ESlice (EVar 11) (Some (ENeg (EInt 1))) None (Some (ENeg (EInt 1))))))) (EBin BMul (EIndex (EVar 10) (EVar 6)) (EIndex (EVar 5) (EBin BSub (EVar 6) (EInt 1))))))
+(SAssign 11 (EInsert (EVar 11) (ELen (EVar 11)) (EVar 13)))))
+(SSeq (SAssign 11 (EInsert (EVar 11) (EInt 0) (EVar 9)))
+(SReturn [(EVar 11); (EVar 4); (EVar 10); (EVar 5)])))))))))))))))))))))).
+(* END GENERATED rlevinson *)
+End Gen.
+Example prog_rlevinson_gen_same : Gen.prog_rlevinson_gen0 = prog_rlevinson_gen0.
+Proof. reflexivity. Qed.
+Example prog_rlevinson_ref_is_generated' : prog_rlevinson_ref = Gen.prog_rlevinson_gen0.
+Proof. reflexivity. Qed.
+
 Print Assumptions rlevinson_ir_run.
 Print Assumptions rlevinson_ir_tie.
